@@ -19,6 +19,7 @@ RULE = (
     "pixels and WCS. Non-trivial: rotated or skewed WCS on an image with >= 2 rows; distinct by WCS parameters."
     ' Also: PIL-backed images touched before the flip; groups of same-shaped images all flipped before any is inspected; one WCS on obj'
     'ects of four different heights; WCS objects that remember a foreign pixel_shape; non-default LONPOLE / LATPOLE.'
+    ' Round 8: CDELT+CROTA2 form; latitude-first headers.'
 )
 ASSUMPTIONS = ["astropy.wcs is the oracle for pixel -> sky"]
 
